@@ -41,7 +41,7 @@ func genToolCase(t *rapid.T) interface{} {
 }
 
 func toolPath() string {
-	return filepath.Join(pbt.Root(), "harness", "bin", "keysgen")
+	return filepath.Join(pbt.BinDir(), "keysgen")
 }
 
 func runToolCase(ci interface{}, rec *pbt.Rec) *pbt.Failure {
